@@ -165,6 +165,70 @@ def sentinel_rule(ck, funcs, report):
     return trackers
 
 
+UNBOUNDED_SEARCHERS = ("strchr", "strrchr", "strstr", "strpbrk", "wcschr", "wcsrchr", "wcsstr", "wcspbrk", "index", "rindex", "strchrnul", "rawmemchr")
+_PRED = {"eq": lambda a, b: a == b, "ne": lambda a, b: a != b, "sgt": lambda a, b: a > b, "ugt": lambda a, b: a > b, "sge": lambda a, b: a >= b, "uge": lambda a, b: a >= b,
+         "slt": lambda a, b: a < b, "ult": lambda a, b: a < b, "sle": lambda a, b: a <= b, "ule": lambda a, b: a <= b}
+
+
+def window_rule(ck, funcs, report):
+    """clause: an answer lies inside the operand's declared window.  Where a function hands an operand parameter P (declared length L, the
+    integer parameter that follows it) to a libc searcher that takes no length, the position it got back is only an answer if its offset
+    from P is < L: element L is not part of the operand.  Every comparison of (result - P) with L must therefore put offset == L on the
+    same side as offset == L+1 and on the other side than offset == L-1 (decided by evaluating the predicate, not by its spelling); a
+    searcher result that is never compared with L at all is reported too."""
+    n = 0
+    for fn in funcs:
+        params = fn.j["params"]
+        for c in fn.insts():
+            if c["op"] not in ("call", "invoke") or c.get("callee") not in UNBOUNDED_SEARCHERS or not c.get("args"):
+                continue
+            a0 = c["args"][0]
+            while a0.get("k") == "v" and fn.defs.get(a0["id"], {}).get("op") == "bitcast":
+                a0 = fn.defs[a0["id"]]["ops"][0]
+            k = next((k for k, p in enumerate(params) if a0.get("k") == "v" and p["id"] == a0["id"]), None)
+            if k is None or params[k]["name"] not in api.OPERAND_NAMES or k + 1 >= len(params) or not params[k + 1]["ty"].startswith("i"):
+                continue
+            P, L = params[k], params[k + 1]
+            n += 1
+
+            def root(o, hops=0):
+                while o.get("k") == "v" and hops < 8:
+                    d = fn.defs.get(o["id"])
+                    if d is None or d["op"] not in ("bitcast", "ptrtoint", "sext", "zext", "trunc"):
+                        break
+                    o = d["ops"][0]; hops += 1
+                return o
+
+            def is_offset(o):
+                o = root(o)
+                d = fn.defs.get(o.get("id")) if o.get("k") == "v" else None
+                if d is not None and d["op"] in ("sdiv", "ashr", "udiv", "lshr"):
+                    d = fn.defs.get(root(d["ops"][0]).get("id"))
+                if d is None or d["op"] != "sub":
+                    return False
+                x, y = root(d["ops"][0]), root(d["ops"][1])
+                return x.get("id") == c["id"] and y.get("id") == P["id"]
+            tests = []
+            for i in fn.insts():
+                if i["op"] != "icmp" or i["pred"] not in _PRED:
+                    continue
+                a, b = i["ops"]
+                if is_offset(a) and root(b).get("id") == L["id"]:
+                    tests.append((i, [_PRED[i["pred"]](off, 10) for off in (9, 10, 11)]))
+                elif is_offset(b) and root(a).get("id") == L["id"]:
+                    tests.append((i, [_PRED[i["pred"]](10, off) for off in (9, 10, 11)]))
+            bn = api.base_name(fn.name)
+            if not tests:
+                report("C10:answer-outside-window:%s:%s:unchecked" % (bn, c["callee"]), "R-answer-inside-declared-window", fn.loc(c),
+                       "%s searches %s with %s, which knows no length, and never compares the position it gets back with %s" % (bn, P["name"], c["callee"], L["name"]))
+            for (i, (below, at, above)) in tests:
+                if not (at == above and at != below):
+                    report("C10:answer-outside-window:%s:%s:%s" % (bn, c["callee"], i["pred"]), "R-answer-inside-declared-window", fn.loc(i),
+                           "%s searches %s with %s, which knows no length, and filters the position by `offset %s %s`: offset == %s is treated like offset == %s-1, "
+                           "so a match in element %s[%s], which is not part of the operand, is returned as an answer" % (bn, P["name"], c["callee"], i["pred"], L["name"], L["name"], L["name"], P["name"], L["name"]))
+    return n
+
+
 def scan_rule(ck, funcs, report):
     """clause: a budgeted scan gives up for lack of budget only after it has examined all `budget` elements (sa/scan.py)"""
     rows, covered, exits, skipped = {}, 0, 0, {}
@@ -201,8 +265,11 @@ def run(ck):
     if nres < 10:
         ck.fail_broken("narrowing rule: only %d stores of a variable value through result parameters found (< 10)" % nres)
     ntrk = sentinel_rule(ck, funcs, ck.report)
+    nwin = window_rule(ck, funcs, ck.report)
+    if nwin < 1:
+        ck.fail_broken("window rule: no call of a length-less libc searcher on an operand found (strchr_s used to have one)")
     fx = selftest(ck)
-    cov = dict(position_trackers_checked_for_sentinel_collision=ntrk, scan_completeness=sc, result_stores_checked_for_narrowing=nres, explanation="For each of the %d exported query functions anchored by the property, every operand parameter (%d pointers named dest/src/str/key/base) "
+    cov = dict(position_trackers_checked_for_sentinel_collision=ntrk, lengthless_searcher_calls_checked_for_window=nwin, scan_completeness=sc, result_stores_checked_for_narrowing=nres, explanation="For each of the %d exported query functions anchored by the property, every operand parameter (%d pointers named dest/src/str/key/base) "
                "is followed through getelementptr/casts/phi/select/integer round trips and through every library callee (inter-procedural write summaries, fixpoint over "
                "the call graph); a store or a writing effect on a derived pointer is a violation. Passing the pointer to the registered constraint handler or to the caller's "
                "comparator, and storing an interior pointer into an out-parameter, are not writes. Scan completeness: in %d budgeted scan loops (a counter from a length argument decreasing by a constant, a cursor advancing by a constant) every exit "
@@ -241,4 +308,9 @@ def selftest(ck):
     out["sentinel"] = dict(fired=sorted(got4), trackers=nt)
     if sorted(got4) != ["C10:sentinel-collides-with-answer:last_idx_sentinel:last.0", "C10:sentinel-collides-with-answer:last_ptr_sentinel:lastp.0"]:
         ck.fail_broken("fixture c10.c: sentinel rule got %s (%d trackers)" % (sorted(got4), nt))
+    got5 = []
+    nw = window_rule(B(), [prog.funcs[n] for n in ("win_good", "win_good_accept", "win_off_by_one", "win_unchecked")], lambda key, *a: got5.append(key))
+    out["window"] = dict(fired=sorted(got5), calls=nw)
+    if sorted(got5) != ["C10:answer-outside-window:win_off_by_one:strchr:sgt", "C10:answer-outside-window:win_unchecked:strrchr:unchecked"] or nw != 4:
+        ck.fail_broken("fixture c10.c: window rule got %s (%d calls)" % (sorted(got5), nw))
     return out
